@@ -82,13 +82,15 @@ type Conn struct {
 	maxWrite int // max concurrent transport writes ever observed
 	// NewestFirst: when several Read calls are parked at once (a library that reads one transport from two
 	// goroutines), arriving data goes to the call that was made last; the others keep waiting (a legal schedule)
-	NewestFirst bool
-	parked      map[int]bool
-	OnWrite     func(k int, b []byte) WriteOutcome
-	OnReadRet   func(k int, n int, err error) // called after a Read returned, outside the lock (scheduler gate)
-	out         []byte
-	events      []Event
-	closeCh     chan struct{}
+	HonourWriteDeadline bool
+	wdl                 time.Time
+	NewestFirst         bool
+	parked              map[int]bool
+	OnWrite             func(k int, b []byte) WriteOutcome
+	OnReadRet           func(k int, n int, err error) // called after a Read returned, outside the lock (scheduler gate)
+	out                 []byte
+	events              []Event
+	closeCh             chan struct{}
 }
 
 var connID int64
@@ -247,6 +249,10 @@ func (c *Conn) Write(b []byte) (int, error) {
 		n = len(b)
 	}
 	c.mu.Lock()
+	if c.HonourWriteDeadline && !c.wdl.IsZero() && time.Now().After(c.wdl) && o.Err == nil {
+		n = len(b) / 2
+		o.Err = &NetErr{Msg: "memnet: write i/o timeout", TO: true}
+	}
 	c.out = append(c.out, b[:n]...)
 	c.inWrite--
 	c.ev("write.end", k, n, o.Err, b[:n])
@@ -280,7 +286,15 @@ func (c *Conn) SetReadDeadline(t time.Time) error {
 	c.mu.Unlock()
 	return nil
 }
-func (c *Conn) SetWriteDeadline(t time.Time) error { return nil }
+
+// SetWriteDeadline: honoured only when HonourWriteDeadline is set: a Write that is still in the transport when the
+// deadline passes accepts half of its bytes and fails with a timeout, as a socket does
+func (c *Conn) SetWriteDeadline(t time.Time) error {
+	c.mu.Lock()
+	c.wdl = t
+	c.mu.Unlock()
+	return nil
+}
 
 // ---- observation side
 
